@@ -166,3 +166,117 @@ Proof.
   exists shared_comp_cf, two_kinds, (fun _ => init_comp wbA), schedK, 0%nat.
   split; [intros a b H; exact H|]. split; [reflexivity|]. vm_compute. discriminate.
 Qed.
+
+(* ------------------------------------------------------------------ *)
+(* set_value on an iterative compiler, fresh vs warmed-up thread: the tracker
+   attributes earlier operations left (any todo / computed / iteration number /
+   iterations / tolerance, as long as the two the setter reads exist - C07_fresh)
+   change neither the outcome nor the compiler's contents *)
+Lemma assemble_cells : forall k r st, assemble k r = Some st -> cells st = k_cells k /\ rngs st = k_rngs k.
+Proof.
+  intros k r st H. unfold assemble in H. destruct (r_iters r); [|discriminate]. destruct (r_tol r); [|discriminate].
+  inversion H. cbn. auto.
+Qed.
+
+Lemma setter_cells : forall c v st st', cells st = cells st' -> rngs st = rngs st' ->
+  cells (setter c v st) = cells (setter c v st') /\ rngs (setter c v st) = rngs (setter c v st').
+Proof. intros c v st st' H H0. unfold setter, getc. cbn [cells rngs]. rewrite H, H0. auto. Qed.
+
+Lemma tstep_set_value_warm : forall w m n n' k c v,
+  m_phase m = PInit -> m_kind m = KSet c v -> ns_ok n -> ns_ok n' ->
+  fst (fst (tstep w m n k)) = fst (fst (tstep w m n' k)) /\ snd (tstep w m n k) = snd (tstep w m n' k) /\
+  final (m_phase (fst (fst (tstep w m n k)))) = true.
+Proof.
+  intros w m n n' k c v Hp Hk Hn Hn'. unfold tstep. rewrite Hp, Hk.
+  destruct (negb (built (nth c (k_cells k) cell0))); [cbn; auto|].
+  destruct (val_eqb _ v); [cbn; auto|].
+  destruct (the_ns_assemble n k Hn) as [st Es]. destruct (the_ns_assemble n' k Hn') as [st' Es'].
+  rewrite Es, Es'. cbn [fst snd fail m_phase final]. split; [reflexivity|]. split; [|reflexivity].
+  destruct (assemble_cells _ _ _ Es) as [C1 R1]. destruct (assemble_cells _ _ _ Es') as [C2 R2].
+  destruct (setter_cells c v st st') as [C3 R3]; [congruence|congruence|].
+  destruct (setter_cells c v _ _ C3 R3) as [C4 R4].
+  unfold comp_of. rewrite C4, R4. reflexivity.
+Qed.
+
+Lemma final_gstep_k : forall cf G t, final (m_phase (g_m G t)) = true ->
+  g_k (gstep cf G t) (c_comp cf t) = g_k G (c_comp cf t).
+Proof.
+  intros cf G t H. unfold gstep. rewrite final_stuck by exact H. cbn [g_k]. apply fupd_same.
+Qed.
+
+Lemma solo_more_k : forall cf t n G, final (m_phase (g_m G t)) = true ->
+  g_k (solo cf t n G) (c_comp cf t) = g_k G (c_comp cf t).
+Proof.
+  intros cf t n. induction n as [|n IH]; intros G H; unfold solo; cbn [repeat run fold_left]; [reflexivity|].
+  fold (run cf (repeat t n) (gstep cf G t)). fold (solo cf t n (gstep cf G t)).
+  rewrite IH by (rewrite final_gstep_m by exact H; exact H).
+  apply final_gstep_k. exact H.
+Qed.
+
+Lemma set_value_warm_equals_fresh : forall cf t sched G G' c v,
+  (forall u, In u sched -> u <> t -> c_ns cf u <> c_ns cf t /\ c_comp cf u <> c_comp cf t) ->
+  g_m G t = start (KSet c v) -> g_m G' t = start (KSet c v) ->
+  g_k G (c_comp cf t) = g_k G' (c_comp cf t) ->
+  ns_ok (g_ns G (c_ns cf t)) -> ns_ok (g_ns G' (c_ns cf t)) ->
+  g_m (run cf sched G) t = g_m (run cf sched G') t /\
+  g_k (run cf sched G) (c_comp cf t) = g_k (run cf sched G') (c_comp cf t).
+Proof.
+  intros cf t sched G G' c v Hs Hm Hm' Hk Hn Hn'.
+  pose proof (ni_on_gen cf t sched G G Hs eq_refl) as V1.
+  pose proof (ni_on_gen cf t sched G' G' Hs eq_refl) as V2.
+  rewrite (only_repeat t sched) in V1, V2.
+  assert (E : g_m (solo cf t (length (only t sched)) G) t = g_m (solo cf t (length (only t sched)) G') t /\
+              g_k (solo cf t (length (only t sched)) G) (c_comp cf t)
+              = g_k (solo cf t (length (only t sched)) G') (c_comp cf t)).
+  { destruct (length (only t sched)) as [|n].
+    - unfold solo; cbn [repeat run fold_left]. rewrite Hm, Hm'. auto.
+    - unfold solo; cbn [repeat run fold_left].
+      fold (run cf (repeat t n) (gstep cf G t)). fold (run cf (repeat t n) (gstep cf G' t)).
+      fold (solo cf t n (gstep cf G t)). fold (solo cf t n (gstep cf G' t)).
+      pose proof (tstep_set_value_warm (c_wb cf t) (start (KSet c v)) _ _ (g_k G (c_comp cf t)) c v
+                                       eq_refl eq_refl Hn Hn') as [H1 [H2 H3]].
+      assert (M1 : g_m (gstep cf G t) t
+                   = fst (fst (tstep (c_wb cf t) (start (KSet c v)) (g_ns G (c_ns cf t)) (g_k G (c_comp cf t))))).
+      { unfold gstep. rewrite Hm.
+        destruct (tstep (c_wb cf t) (start (KSet c v)) (g_ns G (c_ns cf t)) (g_k G (c_comp cf t))) as [[m1 n1] k1].
+        cbn [g_m fst]. apply fupd_same. }
+      assert (K1 : g_k (gstep cf G t) (c_comp cf t)
+                   = snd (tstep (c_wb cf t) (start (KSet c v)) (g_ns G (c_ns cf t)) (g_k G (c_comp cf t)))).
+      { unfold gstep. rewrite Hm.
+        destruct (tstep (c_wb cf t) (start (KSet c v)) (g_ns G (c_ns cf t)) (g_k G (c_comp cf t))) as [[m1 n1] k1].
+        cbn [g_k snd]. apply fupd_same. }
+      assert (M2 : g_m (gstep cf G' t) t
+                   = fst (fst (tstep (c_wb cf t) (start (KSet c v)) (g_ns G' (c_ns cf t)) (g_k G (c_comp cf t))))).
+      { unfold gstep. rewrite Hm', <- Hk.
+        destruct (tstep (c_wb cf t) (start (KSet c v)) (g_ns G' (c_ns cf t)) (g_k G (c_comp cf t))) as [[m1 n1] k1].
+        cbn [g_m fst]. apply fupd_same. }
+      assert (K2 : g_k (gstep cf G' t) (c_comp cf t)
+                   = snd (tstep (c_wb cf t) (start (KSet c v)) (g_ns G' (c_ns cf t)) (g_k G (c_comp cf t)))).
+      { unfold gstep. rewrite Hm', <- Hk.
+        destruct (tstep (c_wb cf t) (start (KSet c v)) (g_ns G' (c_ns cf t)) (g_k G (c_comp cf t))) as [[m1 n1] k1].
+        cbn [g_k snd]. apply fupd_same. }
+      assert (F1 : final (m_phase (g_m (gstep cf G t) t)) = true) by (rewrite M1; exact H3).
+      assert (F2 : final (m_phase (g_m (gstep cf G' t) t)) = true) by (rewrite M2, <- H1; exact H3).
+      rewrite !solo_more, !solo_more_k by assumption.
+      split; congruence. }
+  destruct E as [E1 E2]. unfold solo in E1, E2. unfold view in V1, V2. split; congruence.
+Qed.
+
+(* Example: set_value(A1 := 7) on a workbook whose A1 holds 5, fresh namespace vs
+   a namespace left by evaluate(..., iterations=7, tolerance=1/2) *)
+Definition left_ns : tns :=
+  {| n_tr := Some {| r_todo := [1]%nat; r_computed := [0; 1]%nat; r_itn := 4; r_iters := Some 7; r_tol := Some (1 # 2) |};
+     n_ctx := Some create_actx |}.
+Definition cfS : config := {| c_wb := fun _ => wbP; c_comp := fun t => t; c_ns := fun t => t |}.
+Definition built_comp : comp :=
+  {| k_cells := [ {| built := true; value := Some 5%Q; prev := None; wip := false |};
+                  {| built := true; value := Some 11%Q; prev := None; wip := false |} ]; k_rngs := [] |}.
+Definition GS (n : tns) : glob :=
+  {| g_m := fun _ => start (KSet 0 (Some 7%Q)); g_ns := fun _ => n; g_k := fun _ => built_comp |}.
+Example set_value_warm_example :
+  ns_ok (g_ns (GS absent) 0%nat) /\ ns_ok (g_ns (GS left_ns) 0%nat) /\
+  m_phase (g_m (run cfS [0; 1; 0]%nat (GS left_ns)) 0%nat) = PDone /\
+  k_cells (g_k (run cfS [0; 1; 0]%nat (GS left_ns)) 0%nat)
+  = [ {| built := true; value := Some 7%Q; prev := None; wip := false |};
+      {| built := true; value := Some 11%Q; prev := None; wip := false |} ].
+Proof. split; [exact I|]. split; [cbn; split; discriminate|]. vm_compute. split; reflexivity. Qed.
